@@ -135,8 +135,29 @@ def translate(pattern, flags=0):
     return o, c, groups, a_start, is_bytes
 
 
+def nullable(items):
+    for op, av in items:
+        n = str(op)
+        if n in ('MAX_REPEAT', 'MIN_REPEAT', 'POSSESSIVE_REPEAT'):
+            if av[0] == 0 or nullable(av[2]): continue
+            return False
+        if n == 'SUBPATTERN':
+            if nullable(av[3]): continue
+            return False
+        if n == 'BRANCH':
+            if any(nullable(b) for b in av[1]): continue
+            return False
+        if n == 'AT' and str(av).startswith('AT_BEGINNING'): continue
+        return False
+    return True
+
+
 def matches(kind, pattern, subject, flags=0):
     """z3 Bool: re.<kind>(pattern, subject) is not None"""
+    is_b = isinstance(pattern, bytes)
+    p0 = sre_parse.parse(pattern.decode('latin-1') if is_b else pattern, flags)
+    if kind in ('match', 'search') and nullable(list(p0)):
+        return z3.BoolVal(True)          # every item can match the empty string and nothing anchors the end: always a match
     o, c, groups, a_start, is_bytes = translate(pattern, flags)
     any_ = z3.Star(allchar(is_bytes))
     if kind == 'fullmatch': full = alt(o, c)
@@ -145,11 +166,46 @@ def matches(kind, pattern, subject, flags=0):
     return z3.InRe(subject, full)
 
 
+FACTOR_CLASSES = [z3.Diff(z3.AllChar(z3.ReSort(z3.StringSort())), z3.Union(z3.Re('\r'), z3.Re('\n')))]
+
+
+def _unwrap(op, av):
+    """strip a capturing / non-capturing group around a single item"""
+    while str(op) == 'SUBPATTERN' and len(av[3]) == 1:
+        op, av = av[3][0]
+    return op, av
+
+
+def _alternatives(op, av, fl, is_bytes, at_start):
+    """languages of the alternatives of (A|B|...) in priority order, or None"""
+    op, av = _unwrap(op, av)
+    if str(op) != 'BRANCH': return None
+    out = []
+    for b in av[1]:
+        o, c = tr(b, fl, is_bytes, {}, at_start)
+        if c is not None or o is None: return None
+        out.append(o)
+    return out
+
+
+def _greedy_class_star(op, av, fl, is_bytes):
+    """the character class C of a greedy C* / C+ item, or None"""
+    op, av = _unwrap(op, av)
+    if str(op) != 'MAX_REPEAT' or av[1] != C.MAXREPEAT or len(av[2]) != 1: return None
+    iop, iav = av[2][0]
+    if str(iop) not in ('IN', 'ANY', 'LITERAL', 'NOT_LITERAL'): return None
+    o, c = tr1(iop, iav, fl, is_bytes, {})
+    return o
+
+
 def match_with_groups(kind, pattern, subject, flags, st):
     """(ok, groups): ok = `re.<kind>(pattern, subject) is not None`; groups = {k: (term, optional, isnone_flag)} for capture
-    groups that sit at the top level of the pattern's concatenation.  The pieces are existentially chosen: the facts
-    assumed are those every decomposition satisfies (language of each piece, concatenation), NOT greedy/lazy preference --
-    an over-approximation that is sound for proofs; counter-models are replayed on CPython before they are believed."""
+    groups that sit at the top level of the pattern's concatenation.  The pieces are existentially chosen subject to: the language
+    of each piece, the concatenation, and the backtracking PRIORITIES that make Python's choice unique in the cases that occur --
+    an alternation takes its first alternative with which the rest of the pattern can still match, a greedy optional item is taken
+    when the rest can still match, a final greedy character-class star is maximal.  Anything else (greedy stars in the middle, lazy
+    quantifiers) is left to the existential choice: an over-approximation that is sound for proofs; counter-models are replayed
+    on CPython before they are believed."""
     ok = matches(kind, pattern, subject, flags)
     is_bytes = isinstance(pattern, bytes)
     p = sre_parse.parse(pattern.decode('latin-1') if is_bytes else pattern, flags)
@@ -161,19 +217,24 @@ def match_with_groups(kind, pattern, subject, flags, st):
     groups = {}
     pieces = []
     closed = False
+    anyre = z3.Star(allchar(is_bytes))
     try:
+        body_items = []
         for k, (op, av) in enumerate(items):
             if str(op) == 'AT' and str(av) in ('AT_END', 'AT_END_STRING') and k == len(items) - 1:
                 closed = str(av); continue
-            g = {}
-            o, c = tr1(op, av, fl, is_bytes, g)
+            body_items.append((op, av))
+        langs = []
+        for k, (op, av) in enumerate(body_items):
+            o, c = tr1(op, av, fl, is_bytes, {}, at_start=(k == 0 and kind != 'search'))
             if c is not None: raise Unsupported('anchor inside')
+            langs.append(o)
+        for k, (op, av) in enumerate(body_items):
             v = z3.FreshConst(z3.StringSort(), 'piece')
-            pieces.append((v, o))
+            pieces.append((v, langs[k]))
             if str(op) == 'SUBPATTERN' and av[0] is not None:
                 groups[av[0]] = (v, False, None)
             elif str(op) in ('MAX_REPEAT', 'MIN_REPEAT') and av[0] == 0 and av[1] == 1 and len(av[2]) == 1 and str(av[2][0][0]) == 'SUBPATTERN' and av[2][0][1][0] is not None:
-                # optional group (...)?  -> None when it did not participate; empty piece then
                 flag = z3.FreshBool('nogroup')
                 groups[av[2][0][1][0]] = (v, True, flag)
                 st.assume(z3.Implies(flag, v == z3.StringVal('')))
@@ -183,10 +244,42 @@ def match_with_groups(kind, pattern, subject, flags, st):
     body = z3.Concat(*[v for v, _ in pieces]) if len(pieces) > 1 else pieces[0][0]
     pre = z3.FreshConst(z3.StringSort(), 'pre'); post = z3.FreshConst(z3.StringSort(), 'post')
     facts = [z3.InRe(v, o) for v, o in pieces]
-    if kind != 'search' or a_start: facts.append(pre == z3.StringVal(''))
-    if closed == 'AT_END_STRING' or kind == 'fullmatch': facts.append(post == z3.StringVal(''))
-    elif closed == 'AT_END': facts.append(z3.Or(post == z3.StringVal(''), post == z3.StringVal('\n')))
+    anchored = kind != 'search' or a_start
+    if anchored: facts.append(pre == z3.StringVal(''))
+    if closed == 'AT_END_STRING' or kind == 'fullmatch': facts.append(post == z3.StringVal('')); tail = z3.Re('')
+    elif closed == 'AT_END': facts.append(z3.Or(post == z3.StringVal(''), post == z3.StringVal('\n'))); tail = z3.Option(z3.Re('\n'))
+    else: tail = anyre
     facts.append(subject == z3.Concat(pre, body, post))
+    # ---- priorities (only for anchored matching: with search() the leftmost start position would have to be encoded too)
+    if anchored:
+        n = len(pieces)
+        for k, (op, av) in enumerate(body_items):
+            rest = tail
+            for o in reversed(langs[k + 1:]): rest = z3.Concat(o, rest)
+            suffix = z3.Concat(*([v for v, _ in pieces[k:]] + [post]))
+            alts = _alternatives(op, av, fl, is_bytes, k == 0)
+            if alts:
+                prev_none = []
+                for a in alts:
+                    can = z3.InRe(suffix, z3.Concat(a, rest))
+                    facts.append(z3.Implies(z3.And(prev_none + [can]), z3.InRe(pieces[k][0], a)))
+                    prev_none.append(z3.Not(can))
+            uop, uav = _unwrap(op, av)
+            if str(uop) == 'MAX_REPEAT' and uav[0] == 0 and uav[1] == 1:
+                x, c = tr(uav[2], fl, is_bytes, {})
+                if c is None:
+                    can = z3.InRe(suffix, z3.Concat(z3.Diff(x, z3.Re('')), rest))
+                    facts.append(z3.Implies(can, pieces[k][0] != z3.StringVal('')))
+                    if k in [kk for kk in range(n)] and any(g[1] and g[0] is pieces[k][0] for g in groups.values()):
+                        for g in groups.values():
+                            if g[1] and g[0] is pieces[k][0]: facts.append(g[2] == (pieces[k][0] == z3.StringVal('')))
+            if k == n - 1 and not closed and kind != 'fullmatch':
+                cls = _greedy_class_star(op, av, fl, is_bytes)
+                if cls is not None:
+                    facts.append(z3.InRe(post, z3.Union(z3.Re(''), z3.Concat(z3.Diff(z3.AllChar(z3.ReSort(z3.StringSort())), cls), z3.Star(z3.AllChar(z3.ReSort(z3.StringSort())))))))
+    # factor closure: if the whole subject lies in C* for a single-character class C, so does every piece of the decomposition
+    for Cc in FACTOR_CLASSES:
+        facts.append(z3.Implies(z3.InRe(subject, z3.Star(Cc)), z3.And([z3.InRe(v, z3.Star(Cc)) for v, _ in pieces] + [z3.InRe(post, z3.Star(Cc)), z3.InRe(pre, z3.Star(Cc))])))
     st.assume(z3.Implies(ok, z3.And(facts)))
     groups[0] = (body, False, None)
     return ok, groups
